@@ -276,7 +276,7 @@ def run_case(case, rec):
         Seff = np.asarray(results["S_eff(Q)"][1], float) if beta else SQ
         # where P(Q) is exactly zero beta = <F>^2/<F^2> is 0/0 (undefined, reported as NaN); P*S_eff is zero there
         with np.errstate(all="ignore"):
-            recon = np.where(PQ == 0, bg, PQ*Seff + bg)
+            recon = np.where((PQ == 0) & np.isfinite(SQ), bg, PQ*Seff + bg)
         rec.check("results_reproduce_intensity", core.close(recon, I, 1e-12, 1e-13*sc),
                   dict(ctx, P_times_S_plus_bg=recon, returned=I))
         rec.check("reported_volume_is_P_shell_volume", abs(results["volume"] - Vs) <= 1e-12*abs(Vs)
